@@ -81,9 +81,10 @@ type callRec struct {
 
 // loopAlt is one path through a loop body: the conditions taken and the events recorded.
 type loopAlt struct {
-	conds []string
-	calls []callRec
-	exit  string // "", "break", "return"
+	conds   []string
+	calls   []callRec
+	assigns []assignRec // the assignments to fields and elements made in this alternative
+	exit    string      // "", "break", "return"
 }
 
 type assignRec struct {
@@ -1456,7 +1457,11 @@ func (se *symExec) binop(x *ast.BinaryExpr, l, r val) val {
 		}
 		// an operand that holds a described value (the result of a call kept in a local) is shown as that value
 		side := func(e ast.Expr, v val) string {
-			if _, isId := unparen(e).(*ast.Ident); isId && v.kind == vUnknown && v.desc != "" && v.desc != "lit" && v.lit == nil && strings.Contains(v.desc, "#") {
+			_, isId := unparen(e).(*ast.Ident)
+			if _, isCall := unparen(e).(*ast.CallExpr); isCall {
+				isId = true // the call itself, not kept in a local
+			}
+			if isId && v.kind == vUnknown && v.desc != "" && v.desc != "lit" && v.lit == nil && strings.Contains(v.desc, "#") {
 				return v.desc
 			}
 			return se.canon(e)
@@ -2162,11 +2167,20 @@ func (se *symExec) loopCommon(pos token.Pos, body *ast.BlockStmt, whole ast.Node
 	for o, v := range se.rangeBind {
 		hav.vars[o] = v
 		se.nameByDesc(o, v)
+		if se.tableMode {
+			// the key and the element of a range loop are shown as idx(X) and X[*], whatever the loop calls them
+			if se.pinned == nil {
+				se.pinned = map[types.Object]bool{}
+			}
+			se.params[o] = v.String()
+			se.pinned[o] = true
+		}
 		hav.forget(o.Name())
 		hav.forget(v.desc)
 	}
 	se.rangeBind = nil
 	nCallsEntry := len(entry.calls)
+	nAssignsEntry := len(entry.assigns)
 	nCondsEntry := len(entry.conds)
 	wasConc := hav.conc
 	h0 := hav.h.clone()
@@ -2203,7 +2217,11 @@ func (se *symExec) loopCommon(pos token.Pos, body *ast.BlockStmt, whole ast.Node
 	if se.emitMode {
 		var alts []loopAlt
 		add := func(e *sstate, exit string) {
-			alts = append(alts, loopAlt{conds: append([]string{}, e.conds[nCondsEntry:]...), calls: append([]callRec{}, e.calls[nCallsEntry:]...), exit: exit})
+			la := loopAlt{conds: append([]string{}, e.conds[nCondsEntry:]...), calls: append([]callRec{}, e.calls[nCallsEntry:]...), exit: exit}
+			if len(e.assigns) >= nAssignsEntry {
+				la.assigns = append([]assignRec{}, e.assigns[nAssignsEntry:]...)
+			}
+			alts = append(alts, la)
 		}
 		for _, e := range ends {
 			add(e, "")
